@@ -16,7 +16,7 @@ LEVEL = "exploration"
 RULE = (
     "alphabet of 39 requests (17 fixed + a base request with 21 one-argument-at-a-time variants covering every argument of the solver signature; incl. integer / list / numpy-integer spellings of two requests, footprint/dispersion twins on identical geometry and same-shape different-physics pairs) (shapes 9x7 .. 48x40, odd sizes, truncated / over-requested modes, single and double precision, footprint and "
     "dispersion, default / zero / explicit halo, analytic, multi-level); histories of 60 operations drawn from {solve, set NUM_THREADS in "
-    "{1,2,4,8}, reset_fft_manager, get_fft_manager(k), fftw_wisdom.pkl dropped / truncated / garbage / foreign, allocation noise}; 16 "
+    "1..8, reset_fft_manager, get_fft_manager(k), fftw_wisdom.pkl dropped / truncated / garbage / foreign, allocation noise}; 16 "
     "history runners execute concurrently (loaded machine).  non-trivial = a solve preceded by a different request, a thread change or a "
     "reset; distinct = distinct (state tuple -> request) transitions"
 )
@@ -232,7 +232,7 @@ def run_case(case):
     for step in range(60):
         op = str(rng.choice(["solve", "solve", "solve", "threads", "reset", "manager", "wisdom", "noise"]))
         if op == "threads":
-            rc.NUM_THREADS = int(rng.choice([1, 2, 4, 8]))
+            rc.NUM_THREADS = int(rng.integers(1, 9))
             counters["thread_changes"] += 1
             hist.append(f"T{rc.NUM_THREADS}")
             dirty = True
@@ -242,7 +242,7 @@ def run_case(case):
             hist.append("reset")
             dirty = True
         elif op == "manager":
-            k = int(rng.choice([1, 2, 4, 8]))
+            k = int(rng.integers(1, 9))
             FM.get_fft_manager(num_threads=k)
             hist.append(f"mgr{k}")
             dirty = True
@@ -280,6 +280,15 @@ def run_case(case):
                 continue
             counters["solves"] += 1
             k = rc.NUM_THREADS
+            if k > 1 and not R[nm].get("analytic"):
+                # was the multi-thread kernel really a threaded one?  (numba.threading_layer() raises until a threaded kernel has run)
+                try:
+                    import numba
+
+                    numba.threading_layer()
+                    counters["threaded_solves_with_live_thread_pool"] = counters.get("threaded_solves_with_live_thread_pool", 0) + 1
+                except Exception:
+                    counters["threaded_solves_WITHOUT_thread_pool"] = counters.get("threaded_solves_WITHOUT_thread_pool", 0) + 1
             prec = R[nm]["precision"]
             states.add(st)
             trans.add((st, nm))
@@ -345,4 +354,9 @@ def run_case(case):
 def finalize(results, tier):
     st = sum(r.get("counters", {}).get("distinct_states", 0) for r in results)
     tr = sum(r.get("counters", {}).get("distinct_transitions", 0) for r in results)
-    return {"coverage": {"states": st, "transitions": tr}}
+    live = sum(r.get("counters", {}).get("threaded_solves_with_live_thread_pool", 0) for r in results)
+    inc = []
+    if not live:
+        inc.append("no solve with NUM_THREADS > 1 ran a really multi-threaded kernel (numba's thread pool never started): the thread-setting "
+                   "clause was not exercised")
+    return {"coverage": {"states": st, "transitions": tr, "threaded_solves_with_live_thread_pool": live}, "inconclusive": inc}
